@@ -77,7 +77,9 @@ int __real_tcsetattr(int, int, const struct termios *);
 // ------------------------------------------------------------------------------------------
 // trace output (child: fd 2; one line per event; single threaded, unbuffered)
 static int g_seq = 0;
+static long g_emitted = 0;
 static void emit(const std::string &body) {
+  if (++g_emitted > 300000) _exit(97);   // runaway scenario (e.g. a flush loop that never ends): treated as a hang
   std::string s = "@@H{" + body + "}\n";
   __real_write(2, s.data(), s.size());
 }
@@ -580,7 +582,12 @@ int main(int argc, char **argv) {
 
   FILE *out = fopen(argv[3], "w");
   if (!out) { perror(argv[3]); return 2; }
+  int ntimeouts = 0;
   for (auto &sc : scen) {
+    if (ntimeouts >= 3) {   // a driver that hangs in every scenario must not take hours: skip the rest
+      fprintf(out, "{\"e\":\"Reset\",\"id\":\"%s\"}\n{\"e\":\"End\",\"id\":\"%s\",\"exit\":0,\"sig\":0,\"skipped\":1,\"nreports\":0,\"asan\":[]}\n", sc.first.c_str(), sc.first.c_str());
+      continue;
+    }
     int pfd[2];
     if (pipe(pfd) != 0) { perror("pipe"); return 2; }
     fflush(out);
@@ -600,7 +607,11 @@ int main(int argc, char **argv) {
     // read child's stderr
     std::string buf, all; char tmp[65536]; ssize_t n;
     std::vector<std::string> san;   // sanitizer report lines
-    while ((n = read(pfd[0], tmp, sizeof tmp)) > 0) all.append(tmp, n);
+    bool flood = false;
+    while ((n = read(pfd[0], tmp, sizeof tmp)) > 0) {
+      if (all.size() < (64u << 20)) all.append(tmp, n);
+      else if (!flood) { flood = true; kill(pid, SIGKILL); }
+    }
     close(pfd[0]);
     int st = 0; waitpid(pid, &st, 0);
     std::istringstream is(all); std::string l;
@@ -667,6 +678,7 @@ int main(int argc, char **argv) {
     for (size_t i = 0; i < reports.size() && i < 8; i++) { if (i) rep += ","; rep += reports[i]; }
     rep += "]";
     int ex = WIFEXITED(st) ? WEXITSTATUS(st) : -1, sig = WIFSIGNALED(st) ? WTERMSIG(st) : 0;
+    if (sig == SIGALRM || ex == 97 || flood) ntimeouts++;
     fprintf(out, "{\"e\":\"End\",\"id\":\"%s\",\"exit\":%d,\"sig\":%d,\"nreports\":%zu,\"asan\":%s}\n", sc.first.c_str(), ex, sig, reports.size(), rep.c_str());
   }
   fclose(out);
